@@ -1,4 +1,5 @@
 //@ contract nitrogql_checker::type_system_checker ::fn check_arguments_definition
+//@   requires [C05.argsdef.pre_schema_wf] crate::schema_wf(&definitions.type_system)
 //@   ensures [C05.argsdef.frame] crate::extends_errs(old(result)@, final(result)@)
 //@   ensures [C05.argsdef.sound] final(result)@.len() == old(result)@.len() ==> crate::valid_argsdef(def, definitions)
 //@   ensures [C05.argsdef.complete] crate::valid_argsdef(def, definitions) ==> final(result)@.len() == old(result)@.len()
